@@ -297,6 +297,19 @@ func (r *rwRT) ruleTmpDir() {
 					idx["load"] = i
 				case e.Kind == "defer" && e.Fn != nil && e.Fn.Name() == "RemoveAll" && arg0 == entry.tmp:
 					idx["defer"] = i
+				case e.Kind == "defer":
+					// a deferred clean-up function: evaluate it and look for the removal inside
+					if _, isClo := e.Callee.(Closure); isClo {
+						for _, o2 := range g.in.Apply(g.o.St, e.Callee, e.Args) {
+							for _, e2 := range o2.St.Events[len(g.o.St.Events):] {
+								if e2.Kind == "call" && e2.Fn != nil && e2.Fn.Name() == "RemoveAll" && len(e2.Args) > 0 {
+									if a, _ := asString(e2.Args[0]); a == entry.tmp {
+										idx["defer"] = i
+									}
+								}
+							}
+						}
+					}
 				}
 			}
 			fresh := idx["rm"] >= 0 && idx["mk"] > idx["rm"] && idx["load"] > idx["mk"]
@@ -464,7 +477,7 @@ func (r *rwRT) ruleGenEnv() {
 	ok := true
 	why := ""
 	for _, env := range []string{"", "walk_co.go"} {
-		in := &Interp{W: r.w, MaxDepth: 3, Inline: func(f *ssa.Function) bool { return false }}
+		in := &Interp{W: r.w, MaxDepth: 6, Inline: func(f *ssa.Function) bool { return fnPkgPath(f) == pathCogen }}
 		env := env
 		in.OnCall = func(cc *CallCtx) []Answer {
 			if cc.Fn != nil && cc.Fn.Name() == "Getenv" {
